@@ -34,6 +34,9 @@ type Cfg struct {
 	BigPeer  bool   `json:"big_peer"`         // 4-octet peer AS (needs PeerAS4)
 	Hold     int    `json:"hold,omitempty"`   // bio-rd's configured hold time in seconds (0: 90)
 	Import   string `json:"import,omitempty"` // "", "accept", "set-lp", "prepend", "reject"
+	// OmitMPv6: IPv6 is configured on bio-rd's side (V6) but the remote side's OPEN carries no multiprotocol
+	// capability for IPv6 unicast (an IPv4-only speaker): the family is configured and not negotiated
+	OmitMPv6 bool `json:"omit_mp_v6,omitempty"`
 }
 
 // PeerAS is the remote AS of the session.
@@ -89,7 +92,7 @@ func (c Cfg) Open() *wire.Open {
 	if c.V4MP {
 		o.Caps = append(o.Caps, wire.CapMP(wire.IPv4Unicast))
 	}
-	if c.V6 {
+	if c.V6 && !c.OmitMPv6 {
 		o.Caps = append(o.Caps, wire.CapMP(wire.IPv6Unicast))
 	}
 	var ts []wire.AddPathTuple
@@ -108,6 +111,9 @@ func (c Cfg) Open() *wire.Open {
 // AddPathV4 / AddPathV6: path identifiers travel remote → bio-rd in that family.
 func (c Cfg) AddPathV4() bool { return c.V4 && c.RecvV4 && c.OfferV4 }
 func (c Cfg) AddPathV6() bool { return c.V6 && c.RecvV6 && c.OfferV6 }
+
+// NegV6: IPv6 unicast is configured and the remote side offers the multiprotocol capability for it.
+func (c Cfg) NegV6() bool { return c.V6 && !c.OmitMPv6 }
 
 // Kind is a short label of the session kind.
 func (c Cfg) Kind() string {
